@@ -61,8 +61,26 @@ def full_decoration(sk):
     return [(0 if k in ('va', 'vk') else 1, 1) for k in sk]
 
 
+# string literals whose *inside* holds white space that must survive rendering: a run of blanks,
+# a literal tab, a line break (triple quotes), only blanks, blanks after punctuation.  Used as
+# default values and as (string) annotations: code 2+j in a plist's default/annotation field.
+WS_LITERALS = ("'a  b'", "'\t'", "'''x\ny'''", "'    '", "',  '")
+
+
+def _code_tag(mark, v):
+    return '' if not v else mark if v == 1 else '%sw%d' % (mark, v - 2)
+
+
 def plist_id(pl):
-    return ','.join(k + ('=' if d else '') + (':' if a else '') for k, _n, d, a in pl) or '-'
+    return ','.join(k + _code_tag('=', d) + _code_tag(':', a) for k, _n, d, a in pl) or '-'
+
+
+def ws_decoration(sk, j):
+    """Every parameter annotated with / defaulting to a white-space literal (rotating with the
+    position, starting at literal j)."""
+    n = len(WS_LITERALS)
+    return [(0 if k in ('va', 'vk') else 2 + (i + j) % n, 2 + (i + j + 1) % n)
+            for i, k in enumerate(sk)]
 
 
 def render_params(pl):
@@ -76,9 +94,9 @@ def render_params(pl):
             need_star = False
         s = {'va': '*', 'vk': '**'}.get(k, '') + n
         if a:
-            s += ': ' + ANNOTS[i]
+            s += ': ' + (ANNOTS[i] if a == 1 else WS_LITERALS[a - 2])
         if d:
-            s += (' = ' if a else '=') + DEFAULTS[i]
+            s += (' = ' if a else '=') + (DEFAULTS[i] if d == 1 else WS_LITERALS[d - 2])
         out.append(s)
         if i == last_po:
             out.append('/')
@@ -170,6 +188,45 @@ def build_program(carrier, pl, doc='one'):
         return dict(code=code, callee='w', ref='w', name='w', doc_ref='w',
                     wrapped='g', extra_first=('x' if carrier == 'xw' else None))
     raise ValueError(carrier)
+
+
+_DECO = ('import functools\n'
+         'def deco(fn):\n'
+         '    @functools.wraps(fn)\n'
+         '    def wrapper(*args, **kwargs):\n'
+         '        return fn(*args, **kwargs)\n'
+         '    return wrapper\n')
+# callable kind -> [(member id, callee text, bound?)]: every access Python offers
+KIND_MEMBERS = (
+    ('meth.bound', 'c.m'), ('meth.unbound', 'C.m'),
+    ('cm.class', 'C.k'), ('cm.instance', 'c.k'),
+    ('sm.class', 'C.s'), ('sm.instance', 'c.s'),
+    ('call.bound', 'c'), ('call.attr', 'c.__call__'), ('call.unbound', 'C.__call__'),
+    ('init.bound', 'D'), ('init.unbound', 'D.__init__'),
+)
+
+
+def build_kind_family(pl, decorated):
+    """One module defining the parameter list as method, classmethod, staticmethod, __call__ and
+    __init__, each optionally behind a functools.wraps-style `(*args, **kwargs)` decorator.
+    -> (code, members); a member's callee expression is also the expression of the called
+    object for inspect.signature."""
+    P = render_params(pl)
+    R = ret_annotation(pl)
+    d = '    @deco\n' if decorated else ''
+
+    def sep(first):
+        return first + (', ' if P else '') + P if first else P
+
+    code = (_DECO if decorated else '') + (
+        'class C:\n    "doc of class C"\n'
+        + d + '    def m(%s)%s:\n        pass\n' % (sep('self'), R)
+        + '    @classmethod\n' + d + '    def k(%s)%s:\n        pass\n' % (sep('cls'), R)
+        + '    @staticmethod\n' + d + '    def s(%s)%s:\n        pass\n' % (P, R)
+        + d + '    def __call__(%s)%s:\n        pass\n' % (sep('self'), R)
+        + 'class D:\n' + d + '    def __init__(%s):\n        pass\n' % sep('self')
+        + 'c = C()\n')
+    return code, KIND_MEMBERS
 
 
 class Reference:
